@@ -162,6 +162,22 @@ func ToValList(s *schema.Node, vs []string) (val.Value, error) {
 			return val.Int32List(ints), nil
 		}
 		return val.StringList(append([]string(nil), vs...)), nil
+	case "bits":
+		var out val.BitsList
+		for _, v := range vs {
+			x, err := ToVal(s, v)
+			if err != nil {
+				return nil, err
+			}
+			out = append(out, x.(val.Bits))
+		}
+		return out, nil
+	case "binary":
+		var out val.BinaryList
+		for _, v := range vs {
+			out = append(out, []byte(v))
+		}
+		return out, nil
 	case "identityref":
 		var out val.IdentRefList
 		for _, v := range vs {
